@@ -43,7 +43,7 @@ func c15Check(r *vmc.Result, sc nsFloodScenario) func(nt *nsNet, hist []string) 
 				}
 			}
 		}
-		for _, f := range nt.sent {
+		for _, f := range nt.sentSnapshot() {
 			adv := nsAdvInfo(f.Bytes)
 			if adv == nil {
 				continue
